@@ -34,6 +34,9 @@ def Cfg.clean : Cfg :=
 structure St where
   loc : List Feat
   rem : Nat → List Feat          -- announced features per peer
+  /-- entities of a peer that are known WITHOUT features (announced again by an `added` entry that lists none: the
+      entity object stays, its features are dropped, entries of its former features stay in the registries) -/
+  bare : Nat → List (List Nat) := fun _ => []
   subs : List Entry := []
   binds : List Entry := []
   subNum : Nat := 0
@@ -102,9 +105,19 @@ def delBind (c : Cfg) (s : St) (p cDev : Nat) (cEnt : List Nat) (cFeat : Nat) (s
     if keep.length = s.binds.length then (s, false) else ({ s with binds := keep }, true)
   | _, _ => (s, false)
 
-/-- RemoveRemoteDevice: per entity of the peer -/
+/-- the entities of peer `p` the stack knows: those with announced features and the bare ones -/
+def knownEnts (s : St) (p : Nat) : List (List Nat) := (s.rem p).map (·.ent) ++ s.bare p
+
+/-- RemoveRemoteDevice on its original domain — a peer all of whose entities are known through their features (no bare
+    entity): kept for the cascade bridge of the discovery model; `removePeer` is the operation of the family. -/
 def dropPeer (c : Cfg) (s : St) (p : Nat) : St :=
   let ents := (s.rem p).map (·.ent)
+  { s with subs := s.subs.filter fun e => !(e.peer = p && ents.contains e.cEnt),
+           binds := s.binds.filter fun e => !((c.dropBindsAnyPeer || e.peer = p) && ents.contains e.cEnt) }
+
+/-- RemoveRemoteDevice: per known entity of the peer (with or without features) -/
+def removePeer (c : Cfg) (s : St) (p : Nat) : St :=
+  let ents := knownEnts s p
   { s with subs := s.subs.filter fun e => !(e.peer = p && ents.contains e.cEnt),
            binds := s.binds.filter fun e => !((c.dropBindsAnyPeer || e.peer = p) && ents.contains e.cEnt) }
 
@@ -116,6 +129,28 @@ def dropEntity (c : Cfg) (s : St) (p : Nat) (ent : List Nat) : St :=
   { s with rem := fun q => if q = p then (s.rem p).filter (fun f => !(f.ent = ent)) else s.rem q,
            subs := s.subs.filter fun e => !(e.peer = p && e.cEnt = ent),
            binds := s.binds.filter fun e => !((c.dropBindsAnyPeer || e.peer = p) && e.cEnt = ent) }
+
+/-- One entry of a discovery notification that announces `ent` as removed, as the code (from repair 711ee79 on)
+    processes it: the device information entity [0] is KEPT (the entry is skipped); an entity known through its
+    features goes with the cascade `dropEntity`; an entity known without features goes too, with the stale entries of
+    its former features; an unknown entity changes nothing. `dropEntity` itself is the cascade for an entity that is
+    announced with features and is not [0] — its domain. -/
+def removeEntity (c : Cfg) (s : St) (p : Nat) (ent : List Nat) : St :=
+  if ent = [0] then s else
+  if ((s.rem p).map (·.ent)).contains ent then
+    let s' := dropEntity c s p ent
+    { s' with bare := fun q => if q = p then (s.bare p).filter (· ≠ ent) else s.bare q }
+  else if (s.bare p).contains ent then
+    { s with bare := fun q => if q = p then (s.bare p).filter (· ≠ ent) else s.bare q,
+             subs := s.subs.filter fun e => !(e.peer = p && e.cEnt = ent),
+             binds := s.binds.filter fun e => !((c.dropBindsAnyPeer || e.peer = p) && e.cEnt = ent) }
+  else s
+
+/-- An `added` entry for `ent` that lists no features: a known entity loses its features (its registry entries stay,
+    now stale), an unknown one becomes known; either way the entity is bare afterwards. -/
+def bareEntity (s : St) (p : Nat) (ent : List Nat) : St :=
+  { s with rem := fun q => if q = p then (s.rem p).filter (fun f => !(f.ent = ent)) else s.rem q,
+           bare := fun q => if q = p then ent :: (s.bare p).filter (· ≠ ent) else s.bare q }
 
 /-- SubscriptionManager.Subscriptions(peer) / BindingManager.Bindings(peer): filter by the entry's connection -/
 def subsOf (s : St) (p : Nat) : List Entry := s.subs.filter (·.peer = p)
@@ -134,6 +169,18 @@ def subsPass (s : St) (p : Nat) (ent : List Nat) : St :=
 def bindsPass (c : Cfg) (s : St) (p : Nat) (ent : List Nat) : St :=
   { s with binds := s.binds.filter fun e => !((c.dropBindsAnyPeer || e.peer = p) && e.cEnt = ent) }
 
+/-- NotifySubscribers: the loop over the entries on the feature. A send to a connection that cannot be written to
+    fails; `stop = false` is the code (the error is ignored, the loop goes on), `stop = true` the member that leaves the
+    loop at the first failure. The result lists the notifications that were written. -/
+def sendLoop (stop : Bool) (fails : Nat → Bool) : List (Nat × List Nat × Nat) → List (Nat × List Nat × Nat)
+  | [] => []
+  | t :: ts => if fails t.1 then (if stop then [] else sendLoop stop fails ts) else t :: sendLoop stop fails ts
+
+/-- the notifications written for a change of server feature (sEnt, sFeat) when the connections in `fails` cannot be
+    written to -/
+def delivered (s : St) (fails : Nat → Bool) (sEnt : List Nat) (sFeat : Nat) : List (Nat × List Nat × Nat) :=
+  sendLoop false fails (notifyTargets s sEnt sFeat)
+
 /-- one call, drop, entity removal or single pass of a teardown; a history is a list of these -/
 inductive Op
   | bind (p : Nat) (cEnt : List Nat) (cFeat : Nat) (sEnt : List Nat) (sFeat typ : Nat)
@@ -144,14 +191,16 @@ inductive Op
   | dropEnt (p : Nat) (ent : List Nat)
   | subsPass (p : Nat) (ent : List Nat)
   | bindsPass (p : Nat) (ent : List Nat)
+  | bareEnt (p : Nat) (ent : List Nat)
 
 def step (c : Cfg) (s : St) : Op → St
   | .bind p ce cf se sf t => (addBind s p ce cf se sf t).1
   | .unbind p cd ce cf se sf => (delBind c s p cd ce cf se sf).1
   | .sub p ce cf se sf t => (addSub s p ce cf se sf t).1
   | .unsub p cd ce cf se sf => (delSub c s p cd ce cf se sf).1
-  | .drop p => dropPeer c s p
-  | .dropEnt p ent => dropEntity c s p ent
+  | .drop p => removePeer c s p
+  | .dropEnt p ent => removeEntity c s p ent
+  | .bareEnt p ent => bareEntity s p ent
   | .subsPass p ent => subsPass s p ent
   | .bindsPass p ent => bindsPass c s p ent
 
